@@ -115,3 +115,6 @@ def run_shard(spec):
 
 def replay(doc):
     return pool_checks.replay(__import__(MOD, fromlist=["x"]), doc)
+
+
+RULE += ' Also (waves 8-9): ids with gaps of thousands (0..4, 1500, 1501, 3000), a pre-forked process that reads everything at the end of the first round, closes, and is used again after flush() and new stores.'
